@@ -109,6 +109,15 @@ def Op.spec (op : Op) (c : K) (u v : K) : K :=
   | .setZero => 0
   | .assign => 1 * v
 
+/-- An ARRAY-LIKE operand (nested list, `ndarray`): the last branch of every operator,
+`other = self.space.element(other); return self.__op__(other)`. `space.element` puts the
+values `v` into the buffer `t2` (fresh for a list; for an `ndarray` of matching dtype it wraps
+the caller's array, which then already holds `v`), and the operator re-enters at its
+`other in self.space` branch. -/
+def Op.execCoerced (lc : LC K) (op : Op) (x t2 t : Nat) (v : Vec K) (m : Mem K) :
+    Option (Mem K × Nat) :=
+  op.exec lc x t2 t 0 (m.write t2 v)
+
 def Op.inPlace : Op → Bool
   | .iaddE | .isubE | .imulE | .idivE | .iaddS | .isubS | .imulS | .idivS | .setZero
   | .assign => true
